@@ -25,11 +25,9 @@ def faultOf : String → Option Fault
   | "create:AppendToList:client#1" => some .none
   | "create:Delete:idkey" => some .none
   | "create:Delete:pm" => some .none
-  | "update:Set:code" => some .updCode
-  | "update:Set:cid" => some .updId
-  | "update:Delete:code" => some .updCode
-  | "update:Delete:cid" => some .updId
-  | "update:RemoveFromList:cidx" => some .updId
+  | "update:w0" => some .updCode
+  | "update:w1" => some .updId
+  | "update:w2" => some .updLast
   | "rollback:RemoveFromList:client" => some .none
   | "rollback:RemoveFromList:client#1" => some .none
   | "rollback:RemoveFromList:list" => some .none
